@@ -13,5 +13,14 @@ E == <<7,1,2,4>>
 mcSetup == << [l |-> B, cr |-> TRUE], [l |-> C, cr |-> FALSE], [l |-> D, cr |-> FALSE] >>
 Links0 == << [src |-> B, tgts |-> <<C, D>>], [src |-> D, tgts |-> <<B>>] >>
 mcGensQ   == << NewCrawl(Links0), NewNetQuery(TRUE, FALSE) >>
+\* page query of the domain webentity (prefixes A and its variations) while a rule creates a webentity
+\* at B (path1 below A) and a crawl adds C below B
+PsA == << <<6,1,2>>, <<7,1,2>>, <<6,1,2,3>>, <<7,1,2,3>> >>
+\* the query passes B (not yet a webentity prefix) and keeps its child subtree on its stack; then B is
+\* attached to a new webentity and Z is created in that subtree: the query still reports Z
+Z == <<6,1,2,4,5>>
+mcSetupP == << [l |-> B, cr |-> TRUE], [l |-> C, cr |-> FALSE], [l |-> D, cr |-> FALSE] >>
+mcGensPQ   == << NewCrawl(<< [src |-> D, tgts |-> <<Z>>] >>), NewPagesQuery(PsA, FALSE) >>
+mcGensPF11 == << NewCrawl(<< [src |-> D, tgts |-> <<Z>>] >>), NewRule(A, Path1), NewPagesQuery(PsA, FALSE) >>
 mcGensF11 == << NewCrawl(Links0), NewRule(A, Path1), NewNetQuery(TRUE, FALSE) >>
 =============================================================================
